@@ -34,6 +34,10 @@ THEOREMS = {"Artap.Props.C19": [
     "C19_seeding_changes_only_training_set", "C19_session_event_current", "C19_session_use",
     "C19_session_request", "C19_session_other_events"]}
 AXIOMS_OK = []          # the theorems are closed under the global context
+# second tie to the code (tools/py2coq.py guard mode + coq/theories/GenProofs): the tests that enclose `self.train()` in
+# SurrogateModelPredict.evaluate_individual are translated on every run and proved equal to the model's retrain condition
+from harness.core import translated_specs
+TRANSLATED = translated_specs("SurrogateGuardGen")
 TRUSTED = [
     "Coq 8.16.1 kernel, vm_compute for model evaluation (no native_compute)",
     "hand-written model Model/Surrogate.v tied to surrogate.py / surrogate_scikit.py by this correspondence run",
